@@ -72,7 +72,7 @@ func vfC11clRealUpgrader(s *vfC11clSys, secName string) (transport.Upgrader, err
 var vfC11clHandshakeFailures = []string{"eof", "garbage", "reset"}
 
 func vfC11clRealUpgrade(t *testing.T, out *vfh.Result, secName, fail string, n int) {
-	synctest.Test(t, func(t *testing.T) {
+	vfC11clBubble(t, out, "real upgrader "+secName+" "+fail, func(t *testing.T) {
 		cfg := vfC11clDirectCfg("real-upgrader-" + secName + "-" + fail)
 		s, err := vfC11clNewSys(cfg, vfC11clVariant{n: n}, out)
 		if err != nil {
@@ -184,7 +184,7 @@ func vfC11clRealUpgrade(t *testing.T, out *vfh.Result, secName, fail string, n i
 // B: Accept racing with Close
 
 func vfC11clAcceptRace(t *testing.T, out *vfh.Result, n int) {
-	synctest.Test(t, func(t *testing.T) {
+	vfC11clBubble(t, out, "accept race", func(t *testing.T) {
 		cfg := vfC11clDirectCfg("accept-race")
 		s, err := vfC11clNewSys(cfg, vfC11clVariant{n: n}, out)
 		if err != nil {
@@ -245,7 +245,7 @@ func vfC11clAcceptRace(t *testing.T, out *vfh.Result, n int) {
 // C: the production time-outs
 
 func vfC11clDefaults(t *testing.T, out *vfh.Result, n int) {
-	synctest.Test(t, func(t *testing.T) {
+	vfC11clBubble(t, out, "production time-outs", func(t *testing.T) {
 		cfg := vfC11clDirectCfg("production-timeouts")
 		s, err := vfC11clNewSys(cfg, vfC11clVariant{n: n}, out)
 		if err != nil {
